@@ -10,7 +10,7 @@ from vpbt.gen import streams as S
 ID = "C06"
 LEVEL = "exploration"
 RULE = (
-    "Byte strings from the C02 generator (byte-, field- and unit-level mutations of 32 valid streams generated from the current "
+    "Byte strings from the C02 generator (byte-, field- and unit-level mutations of 34 valid streams generated from the current "
     "tree, plus the valid streams and random bytes). Only inputs the Deserialiser parses to completion are judged (EOF / "
     "KeyError / ZeroDivisionError etc. raised by the parsing pseudo-code = not parsed; streams declaring oversized pictures = "
     "out of scope; all counted). Oracle: Serialiser (no defaults, no autofill) over the returned description reproduces the "
